@@ -52,9 +52,22 @@ class M(State):
     tag: str = ""
 
 
+class IT(State):
+    """a state whose class is iterable as well (a collection-like state): still ONE state"""
+
+    x: int = 0
+    tag: str = ""
+
+    def __iter__(self):
+        return iter((A(tag="member-of-" + self.tag),))
+
+    def __len__(self) -> int:
+        return 1
+
+
 GI = G[int]
 
-FAMILY: dict[str, type[State]] = {"A": A, "A2": A2, "R": R, "G": GI, "U": U, "F": F, "M": M}
+FAMILY: dict[str, type[State]] = {"A": A, "A2": A2, "R": R, "G": GI, "U": U, "F": F, "M": M, "IT": IT}
 
 # supply alphabet: lists of type names (two entries of one type = two instances, last wins)
 SUPPLY = [
@@ -74,6 +87,8 @@ SUPPLY = [
     ["F"],
     ["A", "F"],
     ["M"],
+    ["IT"],
+    ["A", "IT"],
 ]
 
 
